@@ -14,7 +14,8 @@ def have_runner_sources():
     return os.path.exists(os.path.join(FAM.runner_dir, 'build.sh')) and os.path.exists(os.path.join(FAM.coq, 'Extract', 'Extract.v'))
 
 
-BASE_TARGETS = ['Thrift/Len.vo', 'Thrift/Async.vo', 'Proofs/PrimP.vo', 'Proofs/HeaderP.vo', 'Proofs/RoundtripP.vo', 'Proofs/LenP.vo']
+BASE_TARGETS = ['Thrift/Len.vo', 'Thrift/Async.vo', 'Thrift/Skip.vo', 'Proofs/PrimP.vo', 'Proofs/HeaderP.vo', 'Proofs/RoundtripP.vo', 'Proofs/LenP.vo',
+                'Proofs/TotalP.vo', 'Proofs/AsyncP.vo', 'Proofs/SkipP.vo', 'Proofs/PrefixP.vo']
 
 
 def coq_make_gen(targets, timeout=1500):
